@@ -78,6 +78,7 @@ def gen_case(rng, i):
     extra = Mt @ gen.interior_x(rng, lbv, ubv, 1, margin=0.1)[0] + c0
     if i % 7 == 3:
         b, extra = np.round(b), np.round(extra)     # integer-valued targets (handed over as int64 by the harness)
+    s["registered"] = bool(rng.integers(5) == 0)
     s.update({"b": b, "cls": k, "extra": extra, "two_rows": bool(rng.integers(3) == 0),
               "error": ["raise", "ignore", "warn"][rng.integers(3)], "nsp": nsp,
               "api": ["function", "estimator"][rng.integers(2)], "rank1": bool(rng.integers(2))})
@@ -91,7 +92,8 @@ def _call(c, inp, B, error, nsp):
                       baseline=inp["baseline"], error=error, n=nsp, _where="range_of_solutions",
                       _raises_ok=(ValueError,))
     est = gen.live_or_new(c, dreye, inp)
-    return c.call(est.range_of_solutions, B.copy(), error=error, n=nsp, _where="ReceptorEstimator.range_of_solutions",
+    return gen.est_query(c, est, "range_of_solutions", B.copy(), registered=bool(inp.get("registered")), error=error, n=nsp,
+                         _where="ReceptorEstimator.range_of_solutions",
                   _raises_ok=(ValueError,))
 
 
